@@ -242,4 +242,23 @@ def tuiMaxAddrs (x : Option Nat) : Option Nat :=
   | some n => if n > 0 then some n else none
   | none => none
 
+/-! ## `validate_multi` (trippy-tui config.rs): how many targets a mode / protocol can serve -/
+
+/-- the output modes of the application -/
+inductive OutMode | tui | stream | pretty | markdown | csv | json | dot | flows | silent
+  deriving DecidableEq, Repr
+
+/-- the report modes that print one trace -/
+def OutMode.singleTrace : OutMode → Bool
+  | .stream | .pretty | .markdown | .csv | .json => true
+  | _ => false
+
+/-- `validate_multi(mode, protocol, targets, dns_resolve_all)`: `true` = accepted -/
+def validateMulti (mode : OutMode) (proto : Proto) (nTargets : Nat) (resolveAll : Bool) : Bool :=
+  let several := decide (nTargets > 1) || resolveAll
+  if mode.singleTrace && several then false
+  else match proto with
+    | .tcp | .udp => !several
+    | .icmp => true
+
 end TV.Builder
